@@ -122,9 +122,9 @@ class Ctx:
                 sub._dep_error = str(e)
             cache[prop] = sub
         sub = cache[prop]
-        known = {k["key"] for k in load_known() if k.get("status") == "known" and k["property"] == prop}
+        known = [k for k in load_known() if k.get("status") == "known" and k["property"] == prop]
         sel = [o for o in sub.obs if (rules is None or o.rule in rules) and (constructs is None or any(c in o.construct for c in constructs))]
-        bad = [o for o in sel if not o.ok and "%s|%s|%s" % (o.rule, o.construct, o.sig) not in known]
+        bad = [o for o in sel if not o.ok and is_known(o, known) is None]
         err = getattr(sub, "_dep_error", None)
         if err and not bad:
             raise AnalysisError("dependency %s of %s could not be analysed: %s" % (prop, self.prop, err))
@@ -142,14 +142,25 @@ def load_known():
     return json.load(open(p))["findings"]
 
 
+def is_known(o, entries):
+    """a failing obligation is a listed finding when rule, construct and signature agree AND what was found is what the entry recorded
+    (`found_digest`): another defect at the same construct is a new violation, not the known one"""
+    for k in entries:
+        if k["key"] == o.key() and ("found_digest" not in k or k["found_digest"] == digest(str(o.found))):
+            return k
+    return None
+
+
 def finish(ctx, t0, level="other", explanation="", trusted=None, extra=None, out_dir=None):
     """print the report, write evidence and replay files, return the exit code"""
     known = [k for k in load_known() if k["property"] == ctx.prop and k.get("status") == "known"]
-    known_keys = {k["key"]: k for k in known}
+    known_keys = {}
     bad = [o for o in ctx.obs if not o.ok]
     new, seen_known = [], []
     for o in bad:
-        if o.key() in known_keys:
+        k = is_known(o, known)
+        if k is not None:
+            known_keys[o.key()] = k
             seen_known.append(o)
         else:
             new.append(o)
